@@ -40,6 +40,9 @@ func main() {
 		if r.Want("orphans") {
 			orphans(r)
 		}
+		if r.Want("purge-refused") {
+			purgeRefused(r)
+		}
 		r.Floor(int64(r.Pick(400, 8000)), int64(r.Pick(100, 2000)))
 	})
 }
